@@ -8,8 +8,8 @@ import (
 	"os"
 	"path/filepath"
 	"sort"
-	"sync"
 	"strings"
+	"sync"
 
 	"golang.org/x/tools/go/packages"
 	"golang.org/x/tools/go/ssa"
@@ -98,7 +98,7 @@ func LoadProg(repoDir, harnessDir string) (*Prog, error) {
 	}
 	prog, spkgs := ssautil.AllPackages(pkgs, ssa.InstantiateGenerics)
 	prog.Build()
-	p := &Prog{prog: prog, pkgs: map[string]*ssa.Package{}, 
+	p := &Prog{prog: prog, pkgs: map[string]*ssa.Package{},
 		overlay: ov, harnessFiles: files, repoDir: repoDir}
 	for _, sp := range spkgs {
 		if sp != nil {
